@@ -6,7 +6,7 @@ PROP = dict(
     required_theorems=["C29_block_comment_skipped", "C29_line_comment_skipped", "C29_blank_skipped",
                        "C29_block_comment_transparent", "C29_line_comment_transparent",
                        "C29_comment_insertion_partial", "C29_block_comment_insertion", "C29_line_comment_insertion",
-                       "C29_separator_choice", "C29_toplevel_terminator", "C29_stray_semicolon_rejected"],
+                       "C29_separator_choice", "C29_toplevel_terminator", "C29_stray_semicolon_rejected", "C29_shebang_line_skipped"],
     harness_bin="c29",
     # compared observable = the complete token-kind stream incl. payloads of arbitrary programs; the
     # property itself (kinds unchanged by comment insertion, outcome unchanged) is checked directly by the
